@@ -8,3 +8,7 @@ open GrVerif.Props.C17
 #print axioms step_avoids
 #print axioms closest_mem
 #print axioms excluded_never_offered
+#print axioms merge_numbers_are_exact
+#print axioms resolved_verdict_is_true
+#print axioms shift_stays_inside_limit
+#print axioms every_offered_position_is_free
